@@ -56,6 +56,9 @@ type vfWorld struct {
 	snaps   map[crypto.Hash]string
 	refs    map[string]*common.RoundLink
 	ts      uint64
+	first   map[crypto.Hash]uint64 // timestamp of the first stored snapshot holding the transaction
+	early   bool                   // a snapshot that only re-packs finalized ordinary transactions gets an EARLIER timestamp
+	nearly  uint64
 }
 
 func vfDump(store *BadgerStore) map[string]string {
@@ -268,7 +271,31 @@ func vfNewWorld(t testing.TB, store *BadgerStore, salt string) *vfWorld {
 
 func (w *vfWorld) write(node string, txs []*common.VersionedTransaction, id string) error {
 	w.ts += 86400_000_000_000
-	snap := &common.Snapshot{Version: common.SnapshotVersionCommonEncoding, NodeId: w.nodes[node], RoundNumber: 1, References: w.refs[node], Timestamp: w.ts}
+	ts := w.ts
+	if w.first == nil {
+		w.first = map[crypto.Hash]uint64{}
+	}
+	if w.early {
+		// graph timestamps of different chains are not ordered by storing order: when the snapshot holds a
+		// transaction another chain's snapshot finalized earlier, and brings no membership operation of its
+		// own, it is stamped BEFORE that snapshot
+		var prior uint64
+		plain := true
+		for _, tx := range txs {
+			if f, ok := w.first[tx.PayloadHash()]; ok {
+				if prior == 0 || f < prior {
+					prior = f
+				}
+			} else if k := tx.TransactionType(); k != common.TransactionTypeScript && k != common.TransactionTypeDeposit && k != common.TransactionTypeWithdrawalSubmit {
+				plain = false
+			}
+		}
+		if prior > 0 && plain {
+			w.nearly++
+			ts = prior - w.nearly*1_000_000_000
+		}
+	}
+	snap := &common.Snapshot{Version: common.SnapshotVersionCommonEncoding, NodeId: w.nodes[node], RoundNumber: 1, References: w.refs[node], Timestamp: ts}
 	for _, tx := range txs {
 		snap.Transactions = append(snap.Transactions, tx.PayloadHash())
 	}
@@ -276,6 +303,13 @@ func (w *vfWorld) write(node string, txs []*common.VersionedTransaction, id stri
 	w.snaps[snap.Hash] = id
 	topo := &common.SnapshotWithTopologicalOrder{Snapshot: snap, TopologicalOrder: vlTopo.Add(1)}
 	err := w.store.WriteSnapshot(topo, []crypto.Hash{w.nodes[node]})
+	if err == nil {
+		for _, tx := range txs {
+			if _, ok := w.first[tx.PayloadHash()]; !ok {
+				w.first[tx.PayloadHash()] = ts
+			}
+		}
+	}
 	return err
 }
 
@@ -304,6 +338,7 @@ func TestVerifFinalizeReplay(t *testing.T) {
 			t.Fatal(err)
 		}
 		w := vfNewWorld(t, store, fmt.Sprintf("s%d-f%d", vSeed(), wi))
+		w.early = wi%2 == 1
 		tr.Emit(vM{"ev": "Reset", "walk": wi})
 		nsnap := 0
 		for _, st := range wk.Steps {
